@@ -17,6 +17,8 @@ TEXT = {
  'C11': ("Tree jobs: every stream announces source/name indices before use and densely from zero; every map() result is decoded with an independent decoder and must be strictly increasing, on lines >= 1, before the end of source(), with indices inside the tables and a base64/,/; alphabet. Codec jobs: the alphabet and ASCII-ness of every encoder output for all values in the bound.", "DESIGN.md 5 C11"),
  'C13': ("Pairs of equivalent compositions over the SAME symbolic text are built in one symbolic state (nested boxed vs flat ConcatSource; single-child / empty-children ConcatSource, boxing, ReplaceSource without replacements vs the wrapped source) and compared on every path: text, end info, per-position attribution through map() and through the chunk stream.", "DESIGN.md 5 C13"),
  'C12': ("Bounded symbolic execution of the real encoder/decoder MIR: decode(encode(M)) attributes every position as M, encode(decode(s)) == s, encode_vlq is the v3 VLQ spelling for all deltas < 2^30, the decoder equals an independent v3 semantics on shape-concrete strings with all digits symbolic, the lines-only encoder keeps the first mapped segment per line.", "DESIGN.md 5 C12"),
+ 'C16': ("rope.rs itself is interpreted from its MIR (the Rope contract used by the other stages is switched off): construction programs with symbolic piece content and symbolic slice bounds run through the real add/append/from_iter/get_byte_slice code; every observer of every resulting rope, and every pair for ==/starts_with, is compared by the solver with the flat byte string. This also discharges the 'Rope behaves as the flat string' contract the stream stages assume.", "DESIGN.md 5 C16"),
+ 'C19': ("Every unchecked slice/str operation is executed as its checked form and a failed precondition is a violation; WithIndices::substring runs with symbolic char indices (incl. usize::MAX) over multi-byte text; both encoders' from_utf8_unchecked get an all-ASCII obligation on every drain.", "DESIGN.md 5 C19"),
  'C17': ("Decoder: an inductive one-byte step from every decoder state satisfying a stated invariant (all 256 byte values, debug and release MIR) shows no panic for strings of any length < 2^31; plus exhaustive-symbolic short strings, malformed field counts and long continuation runs. Streaming of trees: every tree job treats a reachable panic as a violation. The JSON parser sentence is outside (simd-json).", "DESIGN.md 5 C17"),
 }
 NOTE = "Trusted: the nightly MIR dump of the working tree, the msx interpreter (validated concretely against the native crate), the std contracts listed in each evidence file, z3, and the native replay harness. Bounds and what lies outside them: evidence.coverage.bounds / outside_the_bound; parts of the property whose engine stage is not registered yet are named there and are NOT claimed."
